@@ -179,6 +179,24 @@ Theorem C13_dec_batch_filter_spec :
 Proof. exact dec_batch_filter_spec. Qed.
 Print Assumptions C13_dec_batch_filter_spec.
 
+(* DecShareBatch is the order-preserving filter of the positions whose share
+   verifies, with their decryptions, each of which verifies *)
+Theorem C13_dec_share_batch_spec :
+  forall q (Hc : list (zq q) -> zq q) (H : zq q) (X sH : list (zq q)) (x : zq q) (gcs : list (zq q))
+         (enc : list (pvshare q)) vs K E D,
+    dec_share_batch Hc H X sH x gcs enc vs = Some (ROk (K, E, D)) ->
+    let kept := filter (dsb_ok q H) (combine X (combine sH (combine gcs enc))) in
+    K = map fst kept /\ E = map (fun r => snd (snd (snd r))) kept /\ Forall2 (dsb_dec q Hc H x) kept D.
+Proof. exact dec_share_batch_spec. Qed.
+Print Assumptions C13_dec_share_batch_spec.
+
+Theorem C13_dec_share_batch_verifies :
+  forall q (Hq : prime q) (Hc : list (zq q) -> zq q) (H x : zq q) (r : dsb_row q) (d : pvshare q),
+    x <> zzero -> fst r = smul x pbase -> dsb_ok q H r = true -> dsb_dec q Hc H x r d ->
+    verify_dec_share Hc pbase (fst r) (snd (snd (snd r))) d = VOk.
+Proof. exact dec_share_batch_verifies. Qed.
+Print Assumptions C13_dec_share_batch_verifies.
+
 (* RecoverSecret depends on its inputs only through the verified sub-list *)
 Theorem C13_pvss_recover_only_verified :
   forall q (Hc : list (zq q) -> zq q) (G : zq q) (X X' : list (zq q)) (enc dec enc' dec' : list (pvshare q)) (t : nat),
